@@ -6,10 +6,14 @@
 package sync2
 
 /*@
-// ---------------------------------------------------------------- sync2.Map: TRUSTED sequential contract
-// absmap(m) is the abstract map a *Map stands for. These clauses are the sequential specification of the
-// sync.Map fork; they are ASSUMED (property C04, its linearizability, is not proved by this technique) and
-// are listed as unchecked assumptions in the evidence of every property that uses them.
+// ---------------------------------------------------------------- sync2.Map: the abstract contract its callers use
+// absmap(m) is the abstract map a *Map stands for. The clauses below are what the wrappers (Set, KeyedMutex) are
+// verified against. They stay marked `trusted` because two steps are not machine-checked here: (1) ATOMICITY under
+// concurrent use (property C04: not applicable to this technique; a bounded concurrent stand-in exercises it), and
+// (2) the definitional step absmap(m) := { k -> cval(m,k) | present(m,k) } together with the cardinality arithmetic
+// of the `len` clauses. Everything else - the SEQUENTIAL behaviour of every Map method on the real code - is PROVED
+// at the end of this file ("sequential refinement": Map.Load#impl ... Map.Range#impl), clause for clause, with
+// has(absmap(m),k) read as present(m,k) and absmap(m)[k] as cval(m,k).
 
 // BOUNDED stand-in for the trusted contract below (never counted as proved): every sequence of up to N calls of
 // Load/Store/LoadOrStore/LoadAndDelete/Delete/Range over 3 keys x 2 values from the zero Map, compared with map[K]V.
@@ -23,11 +27,11 @@ bounded C05 20000 200000 sync2.Map atomic contract under concurrent use: rounds 
 bounded C09 20000 200000 sync2.Map atomic contract under concurrent use: rounds of 5 scenario families with forced promotions
 
 func Map.Load
-  trusted sequential specification of sync2.Map (C04 is not proved)
+  trusted abstract contract of sync2.Map: sequential behaviour proved by the #impl refinement below, atomicity (C04) assumed
   ensures ok == has(absmap(m), key) && value == absmap(m)[key]
 
 func Map.LoadOrStore
-  trusted sequential specification of sync2.Map (C04 is not proved)
+  trusted abstract contract of sync2.Map: sequential behaviour proved by the #impl refinement below, atomicity (C04) assumed
   ensures loaded == old(has(absmap(m), key))
   ensures loaded ==> actual == old(absmap(m)[key])
   ensures !loaded ==> actual == value
@@ -38,7 +42,7 @@ func Map.LoadOrStore
   assigns map(absmap(m))
 
 func Map.LoadAndDelete
-  trusted sequential specification of sync2.Map (C04 is not proved)
+  trusted abstract contract of sync2.Map: sequential behaviour proved by the #impl refinement below, atomicity (C04) assumed
   ensures loaded == old(has(absmap(m), key)) && value == old(absmap(m)[key])
   ensures forall k K :: {has(absmap(m), k)} has(absmap(m), k) == (old(has(absmap(m), k)) && k != key)
   ensures forall k K :: {absmap(m)[k]} k != key ==> absmap(m)[k] == old(absmap(m)[k])
@@ -46,7 +50,7 @@ func Map.LoadAndDelete
   assigns map(absmap(m))
 
 func Map.Store
-  trusted sequential specification of sync2.Map (C04 is not proved)
+  trusted abstract contract of sync2.Map: sequential behaviour proved by the #impl refinement below, atomicity (C04) assumed
   ensures forall k K :: {has(absmap(m), k)} has(absmap(m), k) == (old(has(absmap(m), k)) || k == key)
   ensures forall k K :: {absmap(m)[k]} k != key ==> absmap(m)[k] == old(absmap(m)[k])
   ensures absmap(m)[key] == value
@@ -54,14 +58,14 @@ func Map.Store
   assigns map(absmap(m))
 
 func Map.Delete
-  trusted sequential specification of sync2.Map (C04 is not proved)
+  trusted abstract contract of sync2.Map: sequential behaviour proved by the #impl refinement below, atomicity (C04) assumed
   ensures forall k K :: {has(absmap(m), k)} has(absmap(m), k) == (old(has(absmap(m), k)) && k != key)
   ensures forall k K :: {absmap(m)[k]} k != key ==> absmap(m)[k] == old(absmap(m)[k])
   ensures len(absmap(m)) == old(len(absmap(m))) - b2i(old(has(absmap(m), key)))
   assigns map(absmap(m))
 
 func Map.Range
-  trusted sequential specification of sync2.Map (C04 is not proved): each key exactly once, stop at first false
+  trusted abstract contract of sync2.Map: sequential behaviour proved by the #impl refinement below, atomicity (C04) assumed: each key exactly once, stop at first false
   mode rangeloop
   opt rangemap absmap(m)
 
@@ -453,4 +457,182 @@ func Pool.Put
   opt contenttype T
   requires p != nil
   exit_ensures[action] actkind(0) == K_PoolPut && actobj(0) == ref(addr(p.pool)) && actarg(0, 0) == iface(x)
+
+// ================================================================ sync2.Map: SEQUENTIAL refinement of the implementation
+// One goroutine, atomic operations read as plain memory operations.
+spec elive(e P) bool = e.p != nil && e.p != expunged
+
+func entry.load
+  property C03
+  requires m != nil && expunged != nil && !fresh(expunged)
+  ensures[ok]    ok == elive(m)
+  ensures[value] ok ==> value == deref(m.p, T)
+  ensures[zero]  !ok ==> value == zero(T)
+  assigns nothing
+
+// the package-level sentinel `expunged` is a non-nil pointer allocated at package initialisation (ASSUMED)
+func newEntry
+  property C03
+  requires expunged != nil && !fresh(expunged)
+  ensures[fresh] result != nil && fresh(result) && result.p != nil && result.p != expunged && fresh(result.p)
+  ensures[value] deref(result.p, T) == i
+  ensures[alloc] ref(result) < next && ref(result.p) < next
+
+func entry.tryStore
+  property C03
+  requires m != nil && expunged != nil && !fresh(expunged) && i != nil && i != expunged
+  ensures[result] result == (old(m.p) != expunged)
+  ensures[stored] result ==> m.p == i
+  ensures[kept]   !result ==> m.p == old(m.p)
+  assigns fields(m)
+  loop 0 unreachable_backedge
+
+func entry.unexpungeLocked
+  property C03
+  requires m != nil && expunged != nil && !fresh(expunged)
+  ensures[result] wasExpunged == (old(m.p) == expunged)
+  ensures[p]      m.p == ite(wasExpunged, nil, old(m.p))
+  assigns fields(m)
+
+func entry.storeLocked
+  property C03
+  requires m != nil
+  ensures m.p == i
+  assigns fields(m)
+
+func entry.tryLoadOrStore
+  property C03
+  requires m != nil && expunged != nil && !fresh(expunged)
+  ensures[ok]      ok == (old(m.p) != expunged)
+  ensures[loaded]  ok && old(m.p) != nil ==> loaded && actual == old(deref(m.p, T)) && m.p == old(m.p)
+  ensures[stored]  ok && old(m.p) == nil ==> !loaded && actual == i && m.p != nil && m.p != expunged && fresh(m.p) && ref(m.p) < next && deref(m.p, T) == i
+  ensures[expunged] !ok ==> !loaded && m.p == old(m.p)
+  assigns fields(m)
+  loop 0 unreachable_backedge
+
+func entry.delete
+  property C03
+  requires m != nil && expunged != nil && !fresh(expunged)
+  ensures[ok]    ok == old(elive(m))
+  ensures[value] ok ==> value == old(deref(m.p, T)) && m.p == nil
+  ensures[kept]  !ok ==> m.p == old(m.p) && value == zero(T)
+  assigns fields(m)
+  loop 0 unreachable_backedge
+
+func entry.tryExpungeLocked
+  property C03
+  requires m != nil && expunged != nil && !fresh(expunged)
+  ensures[result] isExpunged == (old(m.p) == nil || old(m.p) == expunged)
+  ensures[p]      m.p == ite(old(m.p) == nil, expunged, old(m.p))
+  assigns fields(m)
+  loop 0 unreachable_backedge
+
+// ---- the Map: read map (rm), amended flag (am), dirty map (d)
+spec rm(m P) M = ite(hastype(m.read.v, readOnly), unbox(m.read.v, readOnly).m, nil)
+spec am(m P) bool = hastype(m.read.v, readOnly) && unbox(m.read.v, readOnly).amended
+// the entry that stands for key k, or nil
+spec ent(m P, k K) E = ite(has(rm(m), k), rm(m)[k], ite(am(m) && has(m.dirty, k), m.dirty[k], nil))
+spec present(m P, k K) bool = ent(m, k) != nil && elive(ent(m, k))
+spec cval(m P, k K) V = deref(ent(m, k).p, V)
+
+// representation invariant (sequential): entries are non-nil; an expunged entry is in the read map only and only while
+// a dirty map exists; every other read entry is shared with the dirty map when there is one; without the amended flag
+// the dirty map has no key of its own; different keys have different entries
+spec minv(m P) bool = 0 <= ref(rm(m)) && ref(rm(m)) < next && ref(m.dirty) < next && (m.dirty == nil || ref(m.dirty) != ref(rm(m))) && (forall k K :: {has(rm(m), k)} has(rm(m), k) ==> rm(m)[k] != nil && ref(rm(m)[k]) < next && ref(rm(m)[k].p) < next) && (forall k K :: {has(m.dirty, k)} has(m.dirty, k) ==> m.dirty[k] != nil && ref(m.dirty[k]) < next && m.dirty[k].p != expunged && ref(m.dirty[k].p) < next) && (m.dirty == nil ==> !am(m) && (forall k K :: {has(rm(m), k)} has(rm(m), k) ==> rm(m)[k].p != expunged)) && (m.dirty != nil ==> (forall k K :: {has(rm(m), k)} has(rm(m), k) ==> ite(rm(m)[k].p != expunged, has(m.dirty, k) && m.dirty[k] == rm(m)[k], !has(m.dirty, k)))) && (!am(m) ==> (forall k K :: {has(m.dirty, k)} has(m.dirty, k) ==> has(rm(m), k))) && (forall k1 K, k2 K :: {rm(m)[k1], rm(m)[k2]} k1 != k2 && has(rm(m), k1) && has(rm(m), k2) ==> rm(m)[k1] != rm(m)[k2]) && (forall k1 K, k2 K :: {m.dirty[k1], m.dirty[k2]} k1 != k2 && has(m.dirty, k1) && has(m.dirty, k2) ==> m.dirty[k1] != m.dirty[k2]) && (forall k1 K, k2 K :: {rm(m)[k1], m.dirty[k2]} k1 != k2 && has(rm(m), k1) && has(m.dirty, k2) ==> rm(m)[k1] != m.dirty[k2])
+// the abstract map is unchanged
+spec sameview(m P) bool = forall k K :: {present(m, k)} present(m, k) == old(present(m, k)) && (present(m, k) ==> cval(m, k) == old(cval(m, k)))
+
+func Map.missLocked
+  property C03
+  requires m != nil && expunged != nil && !fresh(expunged) && minv(m) && m.dirty != nil
+  ensures[inv]  minv(m)
+  ensures[view] sameview(m)
+  ensures[ents] forall k K :: {ent(m, k)} ent(m, k) != nil ==> ent(m, k) == old(ent(m, k))
+  assigns fields(m), fields(addr(m.read))
+
+func Map.Load#impl
+  property C03
+  requires m != nil && expunged != nil && !fresh(expunged) && minv(m)
+  ensures[ok]    ok == old(present(m, key))
+  ensures[value] ok ==> value == old(cval(m, key))
+  ensures[zero]  !ok ==> value == zero(V)
+  ensures[inv]   minv(m)
+  ensures[view]  sameview(m)
+  assigns fields(m), fields(addr(m.read))
+
+func Map.LoadAndDelete#impl
+  property C03
+  requires m != nil && expunged != nil && !fresh(expunged) && minv(m)
+  ensures[loaded] loaded == old(present(m, key))
+  ensures[value]  (loaded ==> value == old(cval(m, key))) && (!loaded ==> value == zero(V))
+  ensures[inv]    minv(m)
+  ensures[has]    forall k K :: {present(m, k)} present(m, k) == (old(present(m, k)) && k != key)
+  ensures[vals]   forall k K :: {present(m, k)} k != key && present(m, k) ==> cval(m, k) == old(cval(m, k))
+  assigns fields(m), fields(addr(m.read)), maps, fields(ent(m, key))
+
+func Map.Delete#impl
+  property C03
+  requires m != nil && expunged != nil && !fresh(expunged) && minv(m)
+  ensures[inv]    minv(m)
+  ensures[has]    forall k K :: {present(m, k)} present(m, k) == (old(present(m, k)) && k != key)
+  ensures[vals]   forall k K :: {present(m, k)} k != key && present(m, k) ==> cval(m, k) == old(cval(m, k))
+  assigns fields(m), fields(addr(m.read)), maps, fields(ent(m, key))
+
+// dirtyLocked: when there is no dirty map, make one: every read entry that is deleted (nil) becomes expunged and stays
+// out of the dirty map, every other read entry is shared with it. The abstract map and the entries do not change.
+func Map.dirtyLocked
+  property C03
+  requires m != nil && expunged != nil && !fresh(expunged) && minv(m) && !am(m)
+  ensures[dirty] m.dirty != nil
+  ensures[inv]   minv(m)
+  ensures[read]  rm(m) == old(rm(m)) && am(m) == old(am(m))
+  ensures[view]  sameview(m)
+  ensures[ents]  forall k K :: {ent(m, k)} ent(m, k) == old(ent(m, k))
+  assigns fields(m), objects(entry)
+  loop 0 invariant m.dirty != nil && fresh(m.dirty) && rm(m) == old(rm(m)) && !am(m) && old(m.dirty) == nil
+  loop 0 invariant forall k K :: {has(rm(m), k)} has(rm(m), k) == old(has(rm(m), k)) && (has(rm(m), k) ==> rm(m)[k] == old(rm(m)[k]) && rm(m)[k] != nil)
+  loop 0 invariant forall k K :: {has(m.dirty, k)} has(m.dirty, k) ==> visited[k] && has(rm(m), k) && m.dirty[k] == rm(m)[k] && rm(m)[k].p != expunged
+  loop 0 invariant forall k K :: {visited[k]} visited[k] ==> has(rm(m), k) && rm(m)[k].p == ite(old(rm(m)[k].p) == nil, expunged, old(rm(m)[k].p)) && (rm(m)[k].p != expunged ==> has(m.dirty, k))
+  loop 0 invariant forall k K :: {rm(m)[k]} has(rm(m), k) && !visited[k] ==> rm(m)[k].p == old(rm(m)[k].p)
+  loop 0 invariant forall k K :: {rm(m)[k]} has(rm(m), k) ==> old(rm(m)[k].p) != expunged
+  loop 0 invariant forall k1 K, k2 K :: {rm(m)[k1], rm(m)[k2]} k1 != k2 && has(rm(m), k1) && has(rm(m), k2) ==> rm(m)[k1] != rm(m)[k2]
+  loop 0 invariant forall k K :: {rm(m)[k]} has(rm(m), k) && rm(m)[k].p != nil && rm(m)[k].p != expunged ==> deref(rm(m)[k].p, V) == old(deref(rm(m)[k].p, V))
+
+func Map.Store#impl
+  property C03
+  requires m != nil && expunged != nil && !fresh(expunged) && minv(m)
+  ensures[inv]   minv(m)
+  ensures[has]   forall k K :: {present(m, k)} present(m, k) == (old(present(m, k)) || k == key)
+  ensures[vals]  forall k K :: {present(m, k)} k != key && present(m, k) ==> cval(m, k) == old(cval(m, k))
+  ensures[value] cval(m, key) == value
+  assigns fields(m), fields(addr(m.read)), maps, objects(entry)
+
+func Map.LoadOrStore#impl
+  property C03
+  requires m != nil && expunged != nil && !fresh(expunged) && minv(m)
+  ensures[loaded] loaded == old(present(m, key))
+  ensures[actual] (loaded ==> actual == old(cval(m, key))) && (!loaded ==> actual == value)
+  ensures[inv]    minv(m)
+  ensures[has]    forall k K :: {present(m, k)} present(m, k) == (old(present(m, k)) || k == key)
+  ensures[vals]   forall k K :: {present(m, k)} (k != key || loaded) && present(m, k) ==> cval(m, k) == old(cval(m, k))
+  ensures[value]  !loaded ==> cval(m, key) == value
+  assigns fields(m), fields(addr(m.read)), maps, objects(entry)
+
+// Range (sequential, f does not touch the map): f is called with present keys only, each at most once, with the key's
+// value; the calls stop at the first false; if f never says false every present key is visited. The abstract map does
+// not change (a promotion of the dirty map may happen).
+func Map.Range#impl
+  property C03
+  requires m != nil && expunged != nil && !fresh(expunged) && minv(m)
+  ensures[inv]     minv(m)
+  ensures[view]    sameview(m)
+  ensures[members] forall i :: {logarg(f, 0, i)} 0 <= i && i < loglen(f) ==> present(m, logarg(f, 0, i)) && logarg(f, 1, i) == cval(m, logarg(f, 0, i))
+  ensures[once]    forall i, j :: {logarg(f, 0, i), logarg(f, 0, j)} 0 <= i && i < j && j < loglen(f) ==> logarg(f, 0, i) != logarg(f, 0, j)
+  ensures[stop]    forall i :: {logarg(f, 0, i)} 0 <= i && i < loglen(f) - 1 ==> f(logarg(f, 0, i), logarg(f, 1, i))
+  ensures[all]     (forall i :: {logarg(f, 0, i)} 0 <= i && i < loglen(f) ==> f(logarg(f, 0, i), logarg(f, 1, i))) ==> (forall k K :: {present(m, k)} present(m, k) ==> (exists i :: 0 <= i && i < loglen(f) && logarg(f, 0, i) == k))
+  assigns fields(m), fields(addr(m.read)), log(f)
+  loop 0 invariant !itermod && 0 <= loglen(f) && loglen(f) <= niter
+  loop 0 invariant forall i :: {logarg(f, 0, i)} 0 <= i && i < loglen(f) ==> visited[logarg(f, 0, i)] && present(m, logarg(f, 0, i)) && logarg(f, 1, i) == cval(m, logarg(f, 0, i)) && f(logarg(f, 0, i), logarg(f, 1, i))
+  loop 0 invariant forall i, j :: {logarg(f, 0, i), logarg(f, 0, j)} 0 <= i && i < j && j < loglen(f) ==> logarg(f, 0, i) != logarg(f, 0, j)
+  loop 0 invariant forall k K :: {visited[k]} visited[k] ==> has(rm(m), k) && (present(m, k) ==> (exists i :: 0 <= i && i < loglen(f) && logarg(f, 0, i) == k))
 @*/
